@@ -329,7 +329,7 @@ pub fn c05(ctx: &mut Ctx, layer: &str) {
             while i < per {
                 let big = r.chance(1, 40) && !miri;
                 let rp = if big {
-                    let t = *r.pick(&[130usize, 200, 16_383, 16_384, 16_500, 2_097_152, 2_097_200]);
+                    let t = *r.pick(&[130usize, 200, 16_383, 16_384, 16_500, 70_000, 300_000, 2_097_152, 2_097_200, 4_194_400, 5_300_000]);
                     if t > 100_000 && layer == "vg" {
                         gen::gen_any(r, fam)
                     } else {
@@ -375,8 +375,10 @@ pub fn c05(ctx: &mut Ctx, layer: &str) {
                         _ => 2,
                     };
                     c.count(&format!("random.v{}.{}.hdr{}", fam.n(), r0_class(&base.0), hdr));
-                    for _ in 0..(if big { 2 } else { 4 }) {
-                        let s = wl::rand_schedule(r, b.len(), hdr);
+                    for j in 0..(if big { 4 } else { 4 }) {
+                        // long streams: half of the schedules deliver in power-of-two blocks (from the stream
+                        // or the body start, +-1), with and without a stall at the block edge
+                        let s = wl::rand_schedule_styled(r, b.len(), hdr, big && j % 2 == 1);
                         let mode = if r.bool() { PollMode::Keep } else { PollMode::Recreate };
                         c.distinct(fnv_bytes(fnv_bytes(fam.n() as u64, b), wl::schedule_text(&s).as_bytes()));
                         c05_run(c, fam, b, &base, &s, mode);
